@@ -345,6 +345,47 @@ def leanchecker(module):
 # op-file correspondence
 # --------------------------------------------------------------------------
 
+def _run_watched(exe, inp, env, timeout, quiet=200):
+    """Run exe with inp on stdin; besides the overall timeout, kill it when it has produced no output for `quiet` seconds
+    (the executor's own per-operation watchdog is 60 s; a process whose threads spin may never get to run it)."""
+    import threading, select, tempfile
+    errf = tempfile.TemporaryFile()
+    p = subprocess.Popen([exe], stdin=subprocess.PIPE, stdout=subprocess.PIPE, stderr=errf, env=env)
+    def feed():
+        try:
+            p.stdin.write(inp.encode()); p.stdin.close()
+        except Exception:
+            pass
+    th = threading.Thread(target=feed, daemon=True); th.start()
+    chunks = []; t0 = time.time(); last = t0; killed = None
+    fd = p.stdout.fileno()
+    while True:
+        r, _, _ = select.select([fd], [], [], 5.0)
+        now = time.time()
+        if r:
+            data = os.read(fd, 1 << 16)
+            if not data:
+                break
+            chunks.append(data); last = now
+        elif p.poll() is not None:
+            continue
+        if now - t0 > timeout or now - last > quiet:
+            killed = "timeout"
+            p.kill()
+            break
+    try:
+        p.wait(timeout=30)
+    except Exception:
+        p.kill()
+    errf.seek(0)
+    err = errf.read().decode(errors="replace")
+    errf.close()
+    out = b"".join(chunks).decode(errors="replace")
+    if killed:
+        return out, "timeout", -9
+    return out, err, p.returncode
+
+
 def run_exec(exe, ops, env=None, timeout=1800):
     """Run a line-protocol executable over ops (list of str).  Returns a list
     of (R, O) per op where R is the result line (or 'crash:<kind>') and O the
@@ -360,15 +401,7 @@ def run_exec(exe, ops, env=None, timeout=1800):
     crashes = []
     while start < len(ops):
         inp = "\n".join(ops[start:]) + "\n"
-        try:
-            p = subprocess.run([exe], input=inp, stdout=subprocess.PIPE, stderr=subprocess.PIPE,
-                               text=True, env=e, timeout=timeout)
-            out, err, rc = p.stdout, p.stderr, p.returncode
-        except subprocess.TimeoutExpired as te:
-            out = te.stdout or ""
-            if isinstance(out, bytes):
-                out = out.decode(errors="replace")
-            err, rc = "timeout", -9
+        out, err, rc = _run_watched(exe, inp, e, timeout)
         idx = start
         curR, curO = None, None
         for ln in out.split("\n"):
